@@ -92,6 +92,7 @@ type result struct {
 	MaxBurst        int
 	Overlap         int
 	LiveTokens      int
+	CohortRisk      []string // model.CohortRisk: the run is inside the pattern of known finding C05-F1
 }
 
 func run(d descriptor) *result {
@@ -109,6 +110,7 @@ func run(d descriptor) *result {
 	}
 	defer in.Close()
 	m := model.New(g, d.Vars)
+	defer func() { r.CohortRisk = m.CohortRisk() }()
 	var active, maxActive int32
 	enter := func() {
 		n := atomic.AddInt32(&active, 1)
@@ -301,6 +303,23 @@ func TestC17Concurrent(t *testing.T) {
 	o := gen.GenOpts{MaxDepth: 3, MaxNodes: 12, AllKinds: true, XPath: true, NoIncNest: rec.Exclude("C05-F1")}
 	rapid.Check(t, func(rt *rapid.T) {
 		blk := gen.GenProgram(rt, o)
+		// a third of the programs end in a burst: N tokens leave a parallel
+		// fork, pass one task each, are merged WITHOUT synchronisation and run
+		// the same task and exclusive gateway - all answers of a step are given
+		// at once, so N tokens use one sequence flow, one task and one
+		// gateway at the same moment
+		wide := rapid.SampledFrom([]int{0, 0, 0, 0, 4, 8, 12, 16}).Draw(rt, "wide")
+		if wide > 0 {
+			task := func() *gen.Block { return &gen.Block{K: "task", Def: -1} }
+			mm := &gen.Block{K: "mmerge", Def: -1}
+			for i := 0; i < wide; i++ {
+				mm.Kids = append(mm.Kids, task())
+			}
+			x := &gen.Block{K: "xor", Def: 1, Conds: []*gen.Cond{{Op: "var", Var: rapid.SampledFrom(gen.BoolVars).Draw(rt, "wideVar")}, nil},
+				Kids: []*gen.Block{{K: "seq", Def: -1, Kids: []*gen.Block{task()}}, nil}}
+			mm.Kids = append(mm.Kids, &gen.Block{K: "seq", Def: -1, Kids: []*gen.Block{task(), x}})
+			blk = &gen.Block{K: "seq", Def: -1, Kids: []*gen.Block{blk, mm}}
+		}
 		stripResults(blk)
 		d := descriptor{Prog: blk, Vars: map[string]any{}, Catch: rapid.Bool().Draw(rt, "catch"),
 			Readers: rapid.IntRange(1, 4).Draw(rt, "readers"), Subs: rapid.IntRange(0, 3).Draw(rt, "subs"),
@@ -324,12 +343,12 @@ func TestC17Concurrent(t *testing.T) {
 			rt.Fatalf("inconclusive: %s", r.Inconcl)
 		}
 		rec.End(hash, r.Symptom)
-		cls := []string{fmt.Sprintf("overlap>=3:%v", r.Overlap >= 3), fmt.Sprintf("burst>=2:%v", r.MaxBurst >= 2)}
+		cls := []string{fmt.Sprintf("overlap>=3:%v", r.Overlap >= 3), fmt.Sprintf("burst>=2:%v", r.MaxBurst >= 2), fmt.Sprintf("burst>=8:%v", r.MaxBurst >= 8)}
 		rec.Case("TestC17Concurrent", hash, r.Overlap >= 3 && r.MaxBurst >= 2, cls, map[string]any{"case": d, "maxOverlap": r.Overlap, "maxBurst": r.MaxBurst})
 		if r.Symptom == "" {
 			return
 		}
-		if rec.Unrestricted() && rec.Known("C05-F1") && d.Prog.Features().IncNested {
+		if rec.Unrestricted() && rec.Known("C05-F1") && len(r.CohortRisk) > 0 {
 			rec.KnownHit("TestC17Concurrent", "C05-F1", hash)
 			return
 		}
